@@ -154,6 +154,12 @@ func runForward(c fwdCase) *fwdOutcome {
 		}
 	}()
 	go func() {
+		if c.Skew == "source-stalled" {
+			// the source never reads what the proxy sends it: after a window of acks the forwarder's
+			// ack worker sits blocked in its send to the source (back-pressure)
+			<-stop
+			return
+		}
 		for {
 			select {
 			case m := <-cs.In():
@@ -409,6 +415,11 @@ func TestForward(t *testing.T) {
 							continue
 						}
 						cases = append(cases, fwdCase{Mode: mode, Script: sc, Pos: p, Ending: e, Skew: sk, Window: 1 + (p+si+ki)%4})
+					}
+					// a source that never reads, so that the ack worker is blocked in its send when the stream is ended from
+					// the initiator's side (or by a source error): those endings must still get through
+					if (e == "initiator-cancel" || e == "initiator-disconnect" || e == "source-error") && strings.Count(sc[:p], "A") >= 3 && (rec.Thorough() || (si+p)%2 == 0) {
+						cases = append(cases, fwdCase{Mode: mode, Script: sc, Pos: p, Ending: e, Skew: "source-stalled", Window: 1 + (p+si)%2})
 					}
 				}
 			}
